@@ -86,6 +86,13 @@ func (l LightClientModule) VerifyMembership(
 ) error {
 	ibcStore := l.storeService.OpenKVStore(ctx)
 
+	// The localhost client reads the chain's current state: a proof height above the chain's own height
+	// refers to a state that does not exist yet (and would let a relayer-chosen height satisfy a packet's
+	// height timeout before the chain has reached it).
+	if height.GT(clienttypes.GetSelfHeight(ctx)) {
+		return errorsmod.Wrapf(ibcerrors.ErrInvalidHeight, "proof height %s is above the current height %s", height, clienttypes.GetSelfHeight(ctx))
+	}
+
 	// ensure the proof provided is the expected sentinel localhost client proof
 	if !bytes.Equal(proof, SentinelProof) {
 		return errorsmod.Wrapf(commitmenttypes.ErrInvalidProof, "expected %s, got %s", string(SentinelProof), string(proof))
@@ -129,6 +136,13 @@ func (l LightClientModule) VerifyNonMembership(
 	path exported.Path,
 ) error {
 	ibcStore := l.storeService.OpenKVStore(ctx)
+
+	// The localhost client reads the chain's current state: a proof height above the chain's own height
+	// refers to a state that does not exist yet (and would let a relayer-chosen height satisfy a packet's
+	// height timeout before the chain has reached it).
+	if height.GT(clienttypes.GetSelfHeight(ctx)) {
+		return errorsmod.Wrapf(ibcerrors.ErrInvalidHeight, "proof height %s is above the current height %s", height, clienttypes.GetSelfHeight(ctx))
+	}
 
 	// ensure the proof provided is the expected sentinel localhost client proof
 	if !bytes.Equal(proof, SentinelProof) {
